@@ -140,7 +140,10 @@ func drawLegacyRune(t *rapid.T, members []rune) rune {
 			tcell.RuneRArrow, tcell.RuneBlock, tcell.RuneDiamond, tcell.RunePi, tcell.RuneNEqual, tcell.RuneBoard, tcell.RuneLantern, tcell.RuneS1}
 		return rapid.SampledFrom(keys).Draw(t, "acsrune")
 	case 5:
-		return rune(rapid.IntRange(0x20, 0x7e).Draw(t, "ascii"))
+		if r := rune(rapid.IntRange(0x20, 0x7e).Draw(t, "ascii")); r != '$' {
+			return r
+		}
+		return '#'
 	case 6:
 		return rapid.SampledFrom([]rune{0x4e00, 0x4e8c, 0xac00, 0x3042, 0x1f600}).Draw(t, "wide")
 	case 7:
@@ -159,8 +162,8 @@ func membersOf(locale string) []rune {
 	cs := charsetOfLocale(locale)
 	var out []rune
 	for r := rune(0x20); r < 0x10000; r++ {
-		if r >= 0x7f && r < 0xa0 || (r >= 0xd800 && r < 0xe000) || r == 0xfffd {
-			continue
+		if r >= 0x7f && r < 0xa0 || (r >= 0xd800 && r < 0xe000) || r == 0xfffd || r == '$' {
+			continue // ('$' is never drawn: see drawRune)
 		}
 		if encodable(cs, r) && lm.Width(r) >= 1 {
 			out = append(out, r)
